@@ -6,6 +6,8 @@ import GocoinV.Proofs.C19Vol
 namespace GocoinV.Proofs.C19
 open GocoinV GocoinV.Qdb GocoinV.QdbSpec
 
+variable {eg : Bool}
+
 /-! ### records parsed from the index files carry no data -/
 
 def NoData (l : List (Key × Rec)) : Prop := ∀ kr ∈ l, kr.2.data = none
@@ -91,18 +93,18 @@ theorem diskIndex_noData (F : FS) : NoData (diskIndex F) := by
 /-- NewDBExt(any mode, LoadData = false) on an openable directory — e.g. any directory left by a crash — does not
     fail, and for EVERY key the first Get does not fail and returns exactly the key's disk value (absent keys: nil):
     `loadrec` finds the data file and reads the record's bytes. -/
-theorem lazy_open_get (F : FS) (vol : Bool) (opts : Opts) (h : OpenOK F) (k : Key) :
-    (openDB F vol false opts).failed = none ∧
-    (Qdb.get (openDB F vol false opts) k).1.failed = none ∧
-    (Qdb.get (openDB F vol false opts) k).2 = diskValue F k := by
-  have key : ∀ (F' : FS) (S : OpenState F' vol (openIndex { fs := F, volatile := vol, opts := opts }))
+theorem lazy_open_get (F : FS) (vol : Bool) (opts : Opts) (h : OpenOK eg F) (k : Key) :
+    (openDB F vol false opts eg).failed = none ∧
+    (Qdb.get (openDB F vol false opts eg) k).1.failed = none ∧
+    (Qdb.get (openDB F vol false opts eg) k).2 = diskValue F k := by
+  have key : ∀ (F' : FS) (S : OpenState F' vol (openIndex { fs := F, volatile := vol, opts := opts, eager := eg }))
       (hD : diskIndex F' = diskIndex F) (hdats : F'.dats = F.dats),
-      (openDB F vol false opts).failed = none ∧
-      (Qdb.get (openDB F vol false opts) k).1.failed = none ∧
-      (Qdb.get (openDB F vol false opts) k).2 = diskValue F k := by
+      (openDB F vol false opts eg).failed = none ∧
+      (Qdb.get (openDB F vol false opts eg) k).1.failed = none ∧
+      (Qdb.get (openDB F vol false opts eg) k).2 = diskValue F k := by
     intro F' S hD hdats
-    generalize hX : openIndex { fs := F, volatile := vol, opts := opts } = X at S
-    have hopen : openDB F vol false opts = { X with dataSeq := u32 (X.maxSeq + 1) } := by
+    generalize hX : openIndex { fs := F, volatile := vol, opts := opts, eager := eg } = X at S
+    have hopen : openDB F vol false opts eg = { X with dataSeq := u32 (X.maxSeq + 1) } := by
       unfold openDB
       simp only [Bool.false_eq_true, ↓reduceIte]
       rw [hX]
